@@ -140,6 +140,8 @@ def devices(tier):
     if tier == "quick":
         # all 1- and 2-message devices, 3-message devices over a reduced period set
         out = [ps for ps in out if len(ps) <= 2 or set(ps) <= {None, 2, 3, -1}]
+        # two-message devices: every pair over {absent,-1,0,2,3}; the periods 1 and 5 next to an absent one only
+        out = [ps for ps in out if len(ps) != 2 or set(ps) <= {None, -1, 0, 2, 3} or (None in ps and set(ps) <= {None, 1, 5})]
         keep = []
         for ps in out:
             if len(ps) == 3 and ps.count(None) + ps.count(-1) > 1:
